@@ -23,10 +23,10 @@ CHECKS = {
          "explicit-state BFS over transport call sequences with nonces placed at 0 and 2^64-3..2^64-1, compared with two u64 counters per endpoint; cipher log inspected for the reserved nonce",
          "All sequences (depth 4/6) of writes/reads (valid, undersized, oversize, garbage), explicit nonce settings, rekeys, stateless calls at boundary nonces, on 20 cipher x backend x pattern x mode instances: counters move by exactly one on Ok and never otherwise, 2^64-1 yields Exhausted, writes nothing, never reaches Cipher::encrypt/decrypt.",
          "Nonce values from a boundary alphabet; the stateful sender is positioned with the add-only hook verif_set_sending_nonce."),
- "C11": ("model_checking", "E2 seqmc",
-         "explicit-state BFS over API call sequences on both endpoints for all 38 patterns and a psk variant of each, against a {role, position, phase} model",
-         "Every sequence of valid/invalid writes, genuine/stale/garbage reads, both conversions and transport calls up to depth 2n+2+3 (thorough +5) with at most 2 (3) out-of-phase calls: result variants are the documented state errors, failed calls change nothing, is_my_turn/is_handshake_finished/is_initiator always equal the model's values.",
-         "One primitive suite (the state machine does not depend on primitives); where two state errors apply either is accepted."),
+ "C11": ("model_checking", "E2 seqmc + TLA+ model (TLC) with edge-by-edge conformance replay",
+         "explicit-state BFS over API call sequences on both endpoints for all 38 patterns and a psk variant of each, against a {role, position, phase} model; in addition the TLA+ model tla/HsTurn.tla is checked by TLC (all reachable states, 7 invariants) and every edge of the state graph TLC dumps is replayed on real snow objects (shortest model path to the edge's source + the edge's call) for every name of matching shape, stateful and stateless",
+         "Every sequence of valid/invalid writes, genuine/stale/garbage reads, both conversions and transport calls up to depth 2n+2+3 (thorough +5) with at most 2 (3) out-of-phase calls: result variants are the documented state errors, failed calls change nothing, is_my_turn/is_handshake_finished/is_initiator always equal the model's values. An out-of-phase write gets the state error whatever its buffer sizes. TLA+ part: 2105 model states / 13 339 edges, 276 062 model paths replayed in the quick tier.",
+         "One primitive suite (the state machine does not depend on primitives); where two state errors apply either is accepted; reads of messages over 65535 bytes are refused as input errors before the state is looked at (documented by snow) and are not judged here."),
  "C15": ("model_checking", "E2 seqmc + reference AEAD",
          "explicit-state BFS over write/read/rekey sequences on real transport states against a key-term model; bytes compared with REKEY computed by an independent AEAD",
          "All sequences (depth 4/6) of write, read, rekey_outgoing/incoming and the three manual rekeys on both endpoints, stateful and stateless, 3 ciphers x 2 backends x interactive/one-way: reads succeed iff sender and receiver key terms agree, bytes equal reference ENCRYPT(key(term), n), nonces untouched by rekeys.",
@@ -41,15 +41,15 @@ CHECKS = {
          "A complete first message of a parallel session is a valid message (Noise has no replay protection for it): exempt from clause (b), and from (a) for one-way patterns; random multi-byte edits are replaced by the exhaustive single-bit/truncation/substitution alphabets."),
  "C04": ("fault_enumeration", "E1 product (executor, provenance model)",
          "exhaustive enumeration of deliveries to transport reads: every single-bit flip, every truncation, extensions, constants, reflection, cross-session and handshake messages, and all ordered pairs of an 80-value nonce alphabet in stateless mode",
-         "A transport read returns Ok iff the delivered bytes are the unaltered message the peer wrote for this session, direction, key and nonce (then exactly the payload); 2 million deliveries over 38 patterns + psk variants x 3 ciphers x 2 backends x both modes in the quick tier.",
+         "A transport read returns Ok iff the delivered bytes are the unaltered message the peer wrote for this session, direction, key and nonce (then exactly the payload); 2 million deliveries over 38 patterns + psk variants x 3 ciphers x 2 backends x both modes in the quick tier. When /repo/src contains a synchronisation primitive, concurrent reads are also explored on the shuttle-mapped copy (every interleaving at those primitives).",
          "Acceptance oracle is the crypto-free provenance model; random 64-bit nonces replaced by boundary + all single-bit values."),
  "C08": ("model_checking", "E1 product (executor as driver)",
-         "exhaustive enumeration of single context differences between the two peers (name string, hash/cipher component, every prologue bit/length, every psk bit, pre-shared static keys incl. related keys) for every name (quick: covering subset), pairs in thorough",
+         "exhaustive enumeration of single context differences between the two peers (name string, hash/cipher component, every prologue bit/length, every psk bit, a psk replaced through set_psk after building, pre-shared static keys incl. related keys) for every name (quick: covering subset), the same differences in sessions whose every handshake step is first attempted wrongly and then repeated, pairs in thorough",
          "Peers that differ in the protocol name, prologue, any PSK or any pre-shared static key never both complete the handshake without an error and never accept each other's transport messages; the equal configuration is run as a control.",
          "Names differing only by trailing NULs from a name shorter than HASHLEN are indistinguishable by the specification's padding and excluded."),
  "C10": ("fault_enumeration", "E1 sweep with catch_unwind at the call boundary + watchdog",
          "exhaustive enumeration of calls x states x buffer lengths around every computed field boundary x message shapes, each inside catch_unwind; hang watchdog",
-         "2.2 million public calls (parse, builder with key lengths 0..=200, every handshake state x write/read/set_psk/conversion/getters x boundary buffer lengths x message shapes up to 66000 bytes, both transport modes at boundary nonces) return Ok or Err; none panics or hangs.",
+         "2.2 million public calls (parse, builder with key lengths 0..=200 x every subset of the other keys, every handshake state x write/read/set_psk/conversion/getters x boundary buffer lengths x message shapes up to 66000 bytes, both transport modes at boundary nonces) return Ok or Err; none panics or hangs.",
          "Two open known findings (P-256 scalar 0 or >= n panics in derive_pubkey via Dh::set / Dh::generate) are listed in known_findings.json; allocation-failure aborts cannot occur at the sizes used."),
  "C12": ("model_checking", "E1 complete product",
          "complete enumeration of the finite builder configuration space (patterns x roles x key subsets x psk modifiers x supplied psk subsets x 7 resolvers x 3 DH names) against requirements derived from the spec pattern text, then the honest handshake of every buildable pair",
@@ -65,7 +65,7 @@ CHECKS = {
          "Success with an exactly fitting buffer is not demanded (snow's 16 spare bytes rule for clear payloads is accepted either way)."),
  "C16": ("model_checking", "E1 (executor) + E3 shuttle::check_dfs at cipher-call seams, and on a shuttle-mapped copy of /repo/src when snow contains sync primitives; + labelled free-running sample",
          "exhaustive enumeration of call orders/repetitions and of every interleaving (shuttle depth-first search, no sampling) of the pre-cipher/cipher/post-cipher segments of concurrent stateless calls on a shared state; differential against the stateful sender",
-         "Stateless round trips for an 80-nonce alphabet x 4 sizes, all 120 orders x 3 repetitions of five calls, equality with the stateful sender for n in 0..=8, 8 large nonces (via the nonce hook) and the 65519-byte payload; 2x2 and 3x1 thread mixes (923 / 25 424 / 2 274 schedules each) all return what the sequential function returns.",
+         "Stateless round trips for an 80-nonce alphabet x 4 sizes, all 120 orders x 3 repetitions of five calls, all 24 orders of four different-length messages x tight/roomy/alternating output buffers, equality with the stateful sender for n in 0..=8, 8 large nonces (via the nonce hook) and the 65519-byte payload; 2x2 and 3x1 thread mixes (923 / 25 424 / 2 274 schedules each) all return what the sequential function returns.",
          "On the pinned tree snow has no lock/atomic/cell (scanned on every run): preemptions inside a segment are covered by the type system. When /repo/src mentions any sync primitive the exploration is repeated on a copy whose std/core sync primitives are mapped to shuttle's (every atomic/lock op a scheduling point). The free-running real-thread run is a sample and labelled so."),
  "C17": ("model_checking", "E1 product (executor, pattern-derived model)",
          "exhaustive enumeration of handshake names x DH x supplied-key variants x transport modes, getter compared at every point of the session including around failing calls",
@@ -77,7 +77,7 @@ CHECKS = {
          "Value spaces are closed by alphabets; BLAKE2 digests have no second implementation offline (KATs + cacophony)."),
  "C19": ("fault_enumeration", "E1 product (executor with retained error buffers)",
          "exhaustive enumeration of tag/body bit positions x output buffer sizes x read paths x ciphers x backends; canary-filled buffers searched for plaintext windows after Err",
-         "After a rejected handshake-payload, stateful, stateless or direct Cipher::decrypt read, the caller's buffer contains no 8-byte window of the rejected message's plaintext, for every tag bit, body bits, wrong nonce/ad and 5 buffer sizes.",
+         "After a rejected handshake-payload, stateful, stateless or direct Cipher::decrypt read, the caller's buffer contains no 8-byte window of the rejected message's plaintext, for every tag bit, body bits, wrong nonce/ad and 5 buffer sizes; for handshake messages with an encrypted static key before the payload (7 pattern/message pairs x 25519/P256 x 12 buffer sizes) neither the payload nor the decrypted key.",
          "Plaintexts shorter than 4 bytes are not judged (chance matches)."),
  "C20": ("model_checking", "E1 complete (differential across backend assignments) + fallback truth table",
          "complete enumeration of the 9 backend assignments for every name both backends serve (and fallback-only names), differential against the all-default session; complete truth table of FallbackResolver over tagged stub resolvers with nesting",
@@ -127,7 +127,8 @@ def main():
             {"name": "executor", "path": "harness/snowmc/src/exec.rs", "serves_properties": sorted(CHECKS.keys()), "kind_free_text": "runs op sequences on real snow objects and on an abstract + crypto reference model in lock step"},
             {"name": "E2 seqmc", "path": "harness/snowmc/src/engine/seqmc.rs", "serves_properties": ["C05", "C06", "C07", "C09", "C11", "C15"], "kind_free_text": "stateright explicit-state BFS over API call sequences; every transition re-executes the history on fresh real snow objects and on the reference model in lock step; states merged on model + private-state fingerprint + cipher keys"},
             {"name": "E3 sched", "path": "harness/snowmc/src/props/c16.rs", "serves_properties": ["C16"], "kind_free_text": "shuttle::check_dfs controlled-scheduler exploration of threads sharing one StatelessTransportState, scheduling points at cipher-call seams"},
-            {"name": "c16x", "path": "harness-c16x", "serves_properties": ["C16"], "kind_free_text": "copy of /repo/src with std/core/alloc sync primitives mapped to shuttle's, rebuilt and explored with shuttle::check_dfs when snow contains any synchronisation primitive"},
+            {"name": "c16x", "path": "harness-c16x", "serves_properties": ["C04", "C16"], "kind_free_text": "copy of /repo/src with std/core/alloc sync primitives mapped to shuttle's, rebuilt and explored with shuttle::check_dfs when snow contains any synchronisation primitive"},
+            {"name": "tla", "path": "tla/HsTurn.tla", "serves_properties": ["C11"], "kind_free_text": "TLA+ model of the turn/phase/one-way machine checked by TLC; the dumped state graph is replayed edge by edge against the implementation (harness/snowmc/src/props/c11_tla.rs)"},
             {"name": "refnoise", "path": "harness/refnoise", "serves_properties": sorted(CHECKS.keys()), "kind_free_text": "reference model of Noise rev 34 bound to cacophony vectors and KATs"},
         ],
         "checks": checks,
